@@ -84,7 +84,9 @@ Definition fid_and (a b : N) : N := if a =? MAX64 then b else N.lor a b.   (* Fi
 Definition fm_set (bits mask : N) (en : bool) : N :=                  (* FilterMap::set *)
   if mask =? MAX64 then bits else if en then N.ldiff bits mask else N.lor bits mask.
 Definition fm_enabled (bits mask : N) : bool := N.land bits mask =? 0.  (* FilterMap::is_enabled *)
-Definition fm_any_enabled (bits : N) : bool := negb (bits =? MAX64).   (* FilterMap::any_enabled *)
+(* FilterMap::any_enabled: `self.bits != u64::MAX` in the snapshot (finding F71), the literal `true` after its repair;
+   which one is read off the source on every run (Gen_stack.registry_vetoes_full) *)
+Definition fm_any_enabled (bits : N) : bool := negb (registry_vetoes_full && (bits =? MAX64)).
 
 (** * Layers and collectors
     [Rec n veto]: a recording leaf; [veto m = true] makes its [event_enabled] answer false (a plain
